@@ -1655,10 +1655,10 @@ func (r *stack) lock() {
 	if r.canMutex() {
 		if mutex, found := r.mutex(); found {
 			verifPoint("lock.want", r)
+			mutex.Lock()
 			sc, _ := r.config()
 			_now := now()
 			sc.ldr = &_now
-			mutex.Lock()
 			verifPoint("lock.held", r)
 		}
 	}
@@ -1672,9 +1672,9 @@ the receiver, nothing happens.
 func (r *stack) unlock() {
 	if r.canMutex() {
 		if mutex, found := r.mutex(); found {
-			mutex.Unlock()
 			sc, _ := r.config()
 			sc.ldr = nil
+			mutex.Unlock()
 			verifPoint("lock.released", r)
 		}
 	}
